@@ -6,6 +6,7 @@ import (
 	"errors"
 	"fmt"
 	"os"
+	"reflect"
 	"sort"
 	"strings"
 	"time"
@@ -160,6 +161,7 @@ type mqWorld struct {
 	binfo                   map[*messagequeue.Builder]*mqBInfo
 	reservedNotBuilt        uint64 // bytes reserved for a build that then added nothing
 	reservedNotBuiltSizes   []uint64
+	allocCalls              int // reservations requested so far
 	release                 chan struct{}
 	sends                   int
 	dials                   int
@@ -331,6 +333,7 @@ type mqAlloc struct {
 }
 
 func (a *mqAlloc) AllocateBlockMemory(p peer.ID, n uint64) <-chan error {
+	a.w.allocCalls++
 	ch := a.inner.AllocateBlockMemory(p, n)
 	out := make(chan error, 1)
 	fwd := func(err error) {
@@ -517,10 +520,20 @@ func mqRun(cfg vsched.Config, sc mqScenario) (*mqObs, *vsched.Sched) {
 						if o.Same {
 							blk, lnk = mqBlock(200, 0, o.Size)
 						}
-						stream(o.Req).Transaction(func(rb responseassembler.ResponseBuilder) error {
+						st := stream(o.Req)
+						closedBefore, known := false, false
+						if cf, ok := core.Field(st, "closed"); ok && cf.Kind() == reflect.Bool {
+							closedBefore, known = cf.Bool(), true
+						}
+						calls := w.allocCalls
+						st.Transaction(func(rb responseassembler.ResponseBuilder) error {
 							rb.SendResponse(lnk, blk.RawData())
 							return nil
 						})
+						if known && closedBefore && w.allocCalls > calls && len(sc.Threads) == 1 {
+							// (one driver thread only: nobody else reserves between the two reads)
+							w.violate("reservation-made-for-a-closed-response-stream", fmt.Sprintf("request %d's stream was already closed (an earlier message of it failed) when the next block transaction started, yet memory was reserved for it", o.Req))
+						}
 					case "skip":
 						stream(o.Req).SkipFirstBlocks(int64(o.Size))
 					case "ext":
@@ -787,8 +800,8 @@ func mqJudge(id string, sc mqScenario, o *mqObs) *core.Violation {
 	switch id {
 	case "C17":
 		for _, v := range o.viol {
-			if strings.HasPrefix(v, "accounted-less-than-unsent|") {
-				continue // C15's invariant
+			if strings.HasPrefix(v, "accounted-less-than-unsent|") || strings.HasPrefix(v, "reservation-made-for-a-closed-response-stream|") {
+				continue // C15's invariants
 			}
 			p := strings.SplitN(v, "|", 2)
 			return mk(p[0], p[1])
@@ -822,7 +835,7 @@ func mqJudge(id string, sc mqScenario, o *mqObs) *core.Violation {
 		}
 	case "C15":
 		for _, v := range o.viol {
-			if strings.HasPrefix(v, "accounted-less-than-unsent|") {
+			if strings.HasPrefix(v, "accounted-less-than-unsent|") || strings.HasPrefix(v, "reservation-made-for-a-closed-response-stream|") {
 				p := strings.SplitN(v, "|", 2)
 				return mk(p[0], p[1])
 			}
